@@ -256,7 +256,7 @@ func (x *Explorer) account(c *Chooser, out *Outcome) {
 	for _, v := range out.Viols {
 		n := x.sigSeen[v.Sig]
 		x.sigSeen[v.Sig] = n + 1
-		if n == 0 && len(x.Found) < 40 {
+		if n == 0 && len(x.Found) < 5000 {
 			x.Found = append(x.Found, Found{Viol: v, Choices: c.Choices(), Sample: out.Sample, Profile: x.Profile})
 		}
 	}
